@@ -117,10 +117,34 @@ Proof.
   intros a c Ha. eapply no_sharing; [eapply wt_valid; exact Hw|exact Hlo|exact Ha].
 Qed.
 
+(* DeepCopy of nil is nil: the declared method's statements are executed on the nil receiver ([deep_copy],
+   [deep_copy_map]: Model/DeepCopy.v); the first statement, the guard, returns nil *)
 Lemma nil_copy : forall fuel G ms n h,
-  deep_copy fuel G ms n None h = Ok (None, h) /\
-  (has_map_methods ms n = true -> exec_copy_map ms n (VMap None) h = Ok (VMap None, h)).
-Proof. intros. split; [reflexivity|apply deep_copy_map_nil]. Qed.
+  (has_ptr_copy ms n = true -> deep_copy fuel G ms n None h = Ok (None, h)) /\
+  (has_map_methods ms n = true -> deep_copy_map ms n (VMap None) h = Ok (VMap None, h)).
+Proof. intros. split; [apply deep_copy_nil|apply deep_copy_map_nil_guard]. Qed.
+
+(* ... for every enabled type of a generated file *)
+Lemma nil_copy_generated : forall G order fuel vis ms,
+  dom G -> vis_ok G vis -> gen_deepcopy fuel all_fixed G order vis = Ok ms ->
+  forall n d h fuel',
+    In n order -> lookup G n = Some d -> enabled G d = true ->
+    ((d_kind d = DScalar \/ exists tp fs, d_kind d = DStruct tp fs) -> deep_copy fuel' G ms n None h = Ok (None, h)) /\
+    (forall k e, d_kind d = DMap k e -> deep_copy_map ms n (VMap None) h = Ok (VMap None, h)).
+Proof.
+  intros G order fuel vis ms Hdom Hv Hgen n d h fuel' Hin Hl He.
+  destruct (gen_well_formed G fuel order vis ms Hdom Hv Hgen) as [_ Hroots _ _ _].
+  pose proof (Hroots n d Hin Hl He) as Hr. split.
+  - intros Hk. apply deep_copy_nil. destruct Hk as [E|[tp [fs E]]]; rewrite E in Hr; apply Hr.
+  - intros k e Hk. rewrite Hk in Hr. apply deep_copy_map_nil_guard. exact Hr.
+Qed.
+
+(* the statement-wise execution and the non-nil paths the copy theorems are stated on are one *)
+Lemma deep_copy_is_method_body : forall fuel G ms n,
+  (forall v h, deep_copy fuel G ms n (Some v) h = let! (v', h') := exec_copy fuel G ms n v h in Ok (Some v', h')) /\
+  (forall l h, has_map_methods ms n = true -> cell_is_map h l ->
+               deep_copy_map ms n (VMap l) h = exec_copy_map ms n (VMap l) h).
+Proof. intros. split; [intros; apply deep_copy_some|intros; apply deep_copy_map_is_exec_copy_map; assumption]. Qed.
 
 Lemma every_run_well_formed : forall G fuel order k ms,
   dom G -> run fuel all_fixed G order k = Ok ms -> well_formed G order ms.
